@@ -33,6 +33,8 @@ type Case struct {
 	// AlignByCallback: the alignments are not set directly but by a pre-cell render callback on the table itself
 	// (a callback is handed the live table; what it sets is what the columns ask for in that very pass).
 	AlignByCallback bool `json:"align_by_callback,omitempty"`
+	// Bulk: that many plain one-cell rows are added before the history (big tables: the history's rows come last)
+	Bulk int `json:"bulk,omitempty"`
 }
 
 type alignSetter struct {
@@ -80,6 +82,9 @@ func Prepare(c Case) Prepared {
 	t := gen.NewTable(c.Script.Creator)
 	m := &gen.Model{}
 	var early *texttable.TextTable
+	for i := 0; i < c.Bulk; i++ {
+		m.Step(t, gen.Op{K: "rowitems", Items: []gen.Item{gen.S("r")}})
+	}
 	for i, op := range c.Script.Ops {
 		if c.Pre > 0 && i == c.Pre-1 {
 			early = texttable.Wrap(t)
@@ -268,6 +273,9 @@ func Describe(c Case) Facts {
 	}
 	if m.Mutated {
 		cl("item-mutated-and-updated")
+	}
+	if c.Bulk > 0 {
+		cl("more-than-a-thousand-rows")
 	}
 	all := func(fn func(gen.MCell)) {
 		for _, x := range m.Header {
